@@ -222,15 +222,21 @@ Definition mark_cancelled (s : mstate) : mstate := if is_terminal s then s else 
 
 Definition has_id (id : Z) (t : mtx) : bool := t_id t =? id.
 
+(** a row that is already [Mined] stays mined (only a rollback un-mines) *)
 Definition mark_broadcast (s : mstate) (id : Z) : mstate :=
-  recompute_status (set_txs s (update_first (has_id id) (fun t => set_state t Bcast) (m_txs s))).
+  recompute_status (set_txs s (update_first (has_id id)
+     (fun t => if is_mined t then t else set_state t Bcast) (m_txs s))).
 
 Definition mark_mined (s : mstate) (id h : Z) : mstate :=
   recompute_status (set_txs s (update_first (has_id id)
      (fun t => set_fail (set_unsat (set_state t (Mined h)) None) None) (m_txs s))).
 
+(** a proof arriving for a row already in flight or mined is stale and is not recorded *)
+Definition in_flight_or_mined (t : mtx) : bool :=
+  match t_state t with Bcast | Mined _ => true | _ => false end.
 Definition set_transaction_proved (s : mstate) (id : Z) : mstate :=
-  set_txs s (update_first (has_id id) (fun t => set_state t Proved) (m_txs s)).
+  set_txs s (update_first (has_id id)
+     (fun t => if in_flight_or_mined t then t else set_state t Proved) (m_txs s)).
 
 Definition report_broadcast_failure (s : mstate) (id tip : Z) : mstate :=
   set_txs s (update_first (fun t => has_id id t && is_proved t) (fun t => set_fail t (Some tip)) (m_txs s)).
@@ -468,6 +474,17 @@ Section Drive.
     | None :: _ => None
     end.
 
+  (** the overdue shift: [Some delta] when the most overdue named candidate lags the served
+      target by more than the tolerance *)
+  Definition overdue_shift (st : step) (rows : list mtx) (s : mstate) (tg : targets) : option Z :=
+    if shift_trigger st then
+      match min_first key_lt (map (fun t => (overdue_from st t, t_sched t)) rows) with
+      | Some (ofrom, sched) =>
+        if sat_add ofrom (overdue_tolerance (m_ivl s)) <? tg_eff tg then Some (tg_eff tg - sched) else None
+      | None => None
+      end
+    else None.
+
   Fixpoint plan_loop (fuel : nat) (tg : targets) (s : mstate) (set_aside : list Z) (dirty : bool) (r : rng)
     : plan_result :=
     match fuel with
@@ -480,23 +497,37 @@ Section Drive.
         match all_some (map (fun id => find_tx id (m_txs s)) cands) with
         | None => PDone SWaiting s dirty set_aside
         | Some rows =>
-          let most := min_first key_lt (map (fun t => (overdue_from st t, t_sched t)) rows) in
-          let served := tg_eff tg in
-          match (if shift_trigger st then most else None) with
-          | Some (ofrom, sched) =>
-            if sat_add ofrom (overdue_tolerance (m_ivl s)) <? served then
-              let '(s', r') := shift_schedule s (served - sched) r in
-              plan_loop f tg s' set_aside true r'
-            else plan_verify f tg s set_aside dirty r st rows
-          | None => plan_verify f tg s set_aside dirty r st rows
+          match overdue_shift st rows s tg with
+          | Some delta =>
+            let '(s', r') := shift_schedule s delta r in plan_loop f tg s' set_aside true r'
+          | None =>
+            let '(kept, dfr, disc) := verify rows in
+            let sa := set_aside ++ dfr in
+            if negb (is_nil disc) then
+              plan_loop f tg (record_satisfiability s tg (broaden s disc)) sa true r
+            else if is_nil dfr then PDone st s dirty sa
+            else match st with
+                 | SProve l =>
+                   if negb (is_nil kept)
+                   then PDone (SProve (filter (fun p => mem (fst p) kept) l)) s dirty sa
+                   else plan_loop f tg s sa dirty r
+                 | _ => plan_loop f tg s sa dirty r
+                 end
           end
         end
       end
-    end
-  with plan_verify (fuel : nat) (tg : targets) (s : mstate) (set_aside : list Z) (dirty : bool) (r : rng)
-                   (st : step) (rows : list mtx) {struct fuel} : plan_result :=
-    match fuel with
-    | O => POutOfFuel
-    | S f => POutOfFuel
     end.
+
+  Inductive adv_result := ARes (st : step) (s : mstate) (dirty : bool) | AOutOfFuel.
+
+  Definition advance_fuel (s : mstate) : nat := (4 * length (m_txs s) + 8)%nat.
+
+  Definition advance (s : mstate) (tg : targets) (r : rng) : adv_result :=
+    let '(s1, d1) := sweep s tg in
+    let '(s2, d2, pending) := adjudicate s1 tg in
+    if pending then ARes SReevaluate s2 (d1 || d2)
+    else match plan_loop (advance_fuel s2) tg s2 [] (d1 || d2) r with
+         | PDone st s3 dirty _ => ARes st s3 dirty
+         | POutOfFuel => AOutOfFuel
+         end.
 End Drive.
